@@ -15,7 +15,10 @@ import os
 
 from pyvc import effects, protocov
 
-LEVEL = "proof"
+LEVEL = "other"
+EXPLANATION = ("field-coverage contracts (every supported field of every message type is read by the deserializer and written by the "
+               "serializer) are discharged deductively on the real source and descriptors - a necessary condition per field; the round-trip "
+               "equality itself is checked only by the bounded stand-in on generated protos and is not counted as proved")
 SERDE = "onnx_ir.serde"
 TRUSTED = ["protobuf static typing from annotations and the installed onnx descriptors (pyvc/protocov.py); wholesale CopyFrom / wrapping a "
            "TensorProto in TensorProtoTensor counts as writing / reading every field of the message"]
